@@ -1,5 +1,6 @@
 pub mod common;
 pub mod c01;
+pub mod c03;
 pub mod c14;
 
 use crate::engine::{Run, Verdict};
@@ -11,6 +12,7 @@ pub type ReplayFn = fn(&Value) -> Result<Verdict, String>;
 pub fn registry(id: &str) -> Option<(RunFn, ReplayFn)> {
     match id {
         "C01" => Some((c01::run, c01::replay)),
+        "C03" => Some((c03::run, c03::replay)),
         "C14" => Some((c14::run, c14::replay)),
         _ => None,
     }
